@@ -220,10 +220,10 @@ func R15() Rule {
 				// the last assignment of v in this block comes from such a call
 				for _, n := range b.Nodes[:len(b.Nodes)-1] {
 					as, isAs := n.(*ast.AssignStmt)
-					if !isAs || len(as.Lhs) != 1 || len(as.Rhs) != 1 {
+					if !isAs || len(as.Lhs) < 1 || len(as.Rhs) != 1 {
 						continue
 					}
-					lid, isL := as.Lhs[0].(*ast.Ident)
+					lid, isL := as.Lhs[len(as.Lhs)-1].(*ast.Ident)
 					if !isL || (info.Defs[lid] != v && info.Uses[lid] != v) {
 						continue
 					}
@@ -377,8 +377,8 @@ func R15() Rule {
 				}
 				lit := false
 				if len(b.Nodes) > 0 {
-					if rs, isRet := b.Nodes[len(b.Nodes)-1].(*ast.ReturnStmt); isRet && len(rs.Results) == 1 {
-						if bv, isB := boolLit(rs.Results[0]); isB {
+					if rs, isRet := b.Nodes[len(b.Nodes)-1].(*ast.ReturnStmt); isRet && len(rs.Results) >= 1 {
+						if bv, isB := boolLit(rs.Results[len(rs.Results)-1]); isB {
 							lit = true
 							res.retWritten[bv] = append(res.retWritten[bv], outv[b.Index] == 1)
 						}
@@ -398,11 +398,12 @@ func R15() Rule {
 			return res
 		}
 		results := map[*handlerFn]exitInfo{}
+		// (the flag is the last result: `func (…) bool`, `func (…) (parts []batchPart, ok bool)`)
 		singleBool := func(h *handlerFn) bool {
-			if h.typ.Results == nil || len(h.typ.Results.List) != 1 || len(h.typ.Results.List[0].Names) > 1 {
+			if h.typ.Results == nil || len(h.typ.Results.List) == 0 {
 				return false
 			}
-			t := info.TypeOf(h.typ.Results.List[0].Type)
+			t := info.TypeOf(h.typ.Results.List[len(h.typ.Results.List)-1].Type)
 			bt, isB := t.Underlying().(*types.Basic)
 			return isB && bt.Kind() == types.Bool
 		}
